@@ -159,6 +159,9 @@ type StreamSvc struct {
 	timedOut  bool
 	newClient any
 	bound     int
+	// KeepEndpoints: one endpoint function per method and client object (operation sequences)
+	KeepEndpoints bool
+	eps           map[string]goa.Endpoint
 	mu        sync.Mutex
 	cur       *streamEx
 }
@@ -278,6 +281,29 @@ func (ss *StreamSvc) bind() {
 	host := strings.TrimPrefix(ss.ts.URL, "http://")
 	ss.client = callFunc(reflect.ValueOf(ss.newClient), "http", host, doer, goahttp.RequestEncoder, goahttp.ResponseDecoder, false, dl)[0]
 	ss.bound = 0
+	ss.eps = nil
+}
+
+// endpoint returns the client endpoint of a method. A caller normally asks the generated client
+// for its endpoints once (the generated service client is built from them) and calls them many
+// times: with KeepEndpoints the endpoint function of a method is created once per client object,
+// so that whatever it captures lives across calls; otherwise a new one is made for every call.
+func (ss *StreamSvc) endpoint(method string) (goa.Endpoint, error) {
+	if ep, ok := ss.eps[method]; ok && ss.KeepEndpoints {
+		return ep, nil
+	}
+	epm := ss.client.MethodByName(ss.S.GoMethod(method))
+	if !epm.IsValid() {
+		return nil, fmt.Errorf("client has no endpoint method for %q", method)
+	}
+	ep := epm.Call(nil)[0].Interface().(goa.Endpoint)
+	if ss.KeepEndpoints {
+		if ss.eps == nil {
+			ss.eps = map[string]goa.Endpoint{}
+		}
+		ss.eps[method] = ep
+	}
+	return ep, nil
 }
 
 // rebindEvery bounds the number of connections made to one listening port (each exchange leaves
@@ -543,17 +569,15 @@ func (ss *StreamSvc) Exchange(ex *streamEx) {
 		ex.SentN = s.V.Get(rv, m.Payload)
 		payload = rv.Interface()
 	}
-	epm := ss.client.MethodByName(s.GoMethod(m.Name))
-	if !epm.IsValid() {
-		ex.Herr = fmt.Errorf("client has no endpoint method for %q", m.Name)
-		return
-	}
 	if ss.bound++; ss.bound > rebindEvery && !ss.timedOut {
 		ss.ts.Close()
 		ss.bind()
-		epm = ss.client.MethodByName(s.GoMethod(m.Name))
 	}
-	ep := epm.Call(nil)[0].Interface().(goa.Endpoint)
+	ep, err := ss.endpoint(m.Name)
+	if err != nil {
+		ex.Herr = err
+		return
+	}
 	ss.setCurrent(ex)
 	defer ss.setCurrent(nil)
 	cliDone := make(chan struct{})
